@@ -202,10 +202,13 @@ class Gen:
             n = r.randint(2, 3)
             alts = [{"k": "obj", "cls": self.gen_class(depth - 1, plain=r.random() < 0.6, kind="dataclass")} for _ in range(n)]
             if r.random() < 0.5:
-                keys = [a["cls"] for a in alts]
+                keys, mode = [[a["cls"]] for a in alts], "default"
             else:
-                keys = r.sample(["x", "y", "zz", "a"], n)
-            return {"k": "dunion", "alts": alts, "alias": r.choice(["kind", "type"]), "keys": keys}
+                pool = r.sample(["x", "y", "zz", "a", "q"], n + 1)
+                keys, mode = [[k] for k in pool[:n]], "explicit"
+                if r.random() < 0.4:
+                    keys[0].append(pool[n])
+            return {"k": "dunion", "alts": alts, "alias": r.choice(["kind", "type"]), "keys": keys, "mode": mode}
         if self.objects:
             return {"k": "obj", "cls": self.gen_class(depth - 1)}
         return self.gen_leaf()
@@ -372,8 +375,9 @@ class Gen:
         if k == "dunion":
             got = dict((key, v) for key, v in d["o"])
             tag = got.get(T["alias"], {}).get("s")
-            if tag in T["keys"]:
-                return self.obj_image(T["alts"][T["keys"].index(tag)]["cls"], d)
+            for keys, alt in zip(T["keys"], T["alts"]):
+                if tag in keys:
+                    return self.obj_image(alt["cls"], d)
             return None
         return None
 
@@ -542,7 +546,7 @@ class Gen:
             if d is None:
                 return None
             o = [p for p in d["o"] if p[0] != T["alias"]]
-            o.insert(r.randint(0, len(o)), [T["alias"], d_str(T["keys"][i])])
+            o.insert(r.randint(0, len(o)), [T["alias"], d_str(r.choice(T["keys"][i]))])
             return d_obj(o)
         return None
 
